@@ -61,8 +61,14 @@ CLAIMED['C16'] = dict(
          'deserialised from reference bytes with symbolic fields, merkle root and witness commitment offered as reference value + symbolic delta, sigops at 19 999/20 000/20 001, '
          'coinbase-witness shapes; every rejection must be a ValidationError (exposed the coinbase-not-checked and IndexError defects, now fixed).',
     note='SHA-256 uninterpreted; block shapes are the bound (<=3 txs); scripts are concrete filler except in the sigop / symbolic-script shapes; size/weight limits one shape per side; PoW exactness is C17.')
+CLAIMED['C18'] = dict(
+    text=_T + 'for each of the 17 message types (symbolic scalar fields over wire ranges, vectors of 0..2 entries, IPv4 and IPv6, tx/blocks from C01 shapes) and each chain: '
+         'to_bytes equals an independent reference frame (magic, padded command, length, checksum, protocol payload layout), from_bytes restores type and fields, re-framing identical, '
+         'every truncation raises the truncation error; streams of <= 3 frames keep order and exact positions; frames with symbolic magic / ALL 2^32 length values / symbolic checksum and '
+         'payload are judged against the reference frame rule including "never reads beyond the frame" (exposed the signed length field and the headers layout, both fixed).',
+    note='SHA-256 uninterpreted (checksum rule judged over the same function symbol); inet_ntop/pton uninterpreted inverse pair; command-field corruption outside the claim; msg_version for nVersion >= 70001.')
 _UC = 'check not built yet in this round (engine exists; harness pending) - will be claimed or declared not applicable with its real reason'
-for _i in ['C05','C06','C07','C09','C12','C14','C18','C19']:
+for _i in ['C05','C06','C07','C09','C12','C14','C19']:
     NA[_i] = _UC
 NA['C13'] = ('key derivation, signing, verification and point validity are computed by OpenSSL through ctypes: there is no Python or IR to execute '
              'symbolically, and the reference (secp256k1 group law, 256-bit modular inversion) is non-linear 256-bit arithmetic out of reach of z3/cvc5')
